@@ -332,4 +332,82 @@ theorem matchNamed_eq_envOf {V C : Type} (k : Nat) (fname : C → Ident)
   have := matchNamed_eq_envOf_aux k fname bind cs vals hnd hlen cs 0 (by simp)
   simpa using this
 
+theorem nodup_map_index {C : Type} (f : C → Ident) :
+    ∀ (cs : List C) (j₁ j₂ : Nat) (c₁ c₂ : C), (cs.map f).Nodup →
+      cs[j₁]? = some c₁ → cs[j₂]? = some c₂ → f c₁ = f c₂ → j₁ = j₂ := by
+  intro cs j₁ j₂ c₁ c₂ hnd h1 h2 hf
+  have a := fieldIndex_map_get f cs j₁ c₁ hnd h1
+  have b := fieldIndex_map_get f cs j₂ c₂ hnd h2
+  rw [hf] at a
+  rw [a] at b
+  exact Option.some.inj b
+
+
+/-- What an arm block needs from its environment: the two binders of every non-ignored field
+    resolve to that field of the left and of the right operand. Generic in the per-field
+    configuration `C` (`ign` says which fields the generator skips). -/
+def EnvOK {V C : Type} (E : Env V) (k : Nat) (ign : C → Bool) (bs bo : Nat → C → Option Ident)
+    (i : Nat) (cs : List C) (xs ys : List V) : Prop :=
+  ∀ j c x y, cs[j]? = some c → xs[j]? = some x → ys[j]? = some y → ign c = false →
+    ∃ s o, bs (i + j) c = some s ∧ bo (i + j) c = some o ∧
+      E.look s = some (⟨k, i + j⟩, x) ∧ E.look o = some (⟨k, i + j⟩, y)
+
+theorem EnvOK_tail {V C : Type} {E : Env V} {k : Nat} {ign : C → Bool}
+    {bs bo : Nat → C → Option Ident}
+    {i : Nat} {c : C} {cs : List C} {x y : V} {xs ys : List V}
+    (h : EnvOK E k ign bs bo i (c :: cs) (x :: xs) (y :: ys)) :
+    EnvOK E k ign bs bo (i + 1) cs xs ys := by
+  intro j c' x' y' hc hx hy hig
+  have := h (j + 1) c' x' y' (by simpa using hc) (by simpa using hx) (by simpa using hy) hig
+  rwa [show i + (j + 1) = i + 1 + j by omega] at this
+
+/-- The environment built by the two patterns satisfies `EnvOK`, given that the self/other binder
+    functions are injective over the field list and never produce a common name. -/
+theorem envOK_of_envOf {V C : Type} (k : Nat) (ign : C → Bool) (bs bo : Nat → C → Option Ident)
+    (cs : List C) (xs ys : List V)
+    (hs_inj : ∀ j₁ j₂ c₁ c₂ x, cs[j₁]? = some c₁ → cs[j₂]? = some c₂ →
+        bs (0 + j₁) c₁ = some x → bs (0 + j₂) c₂ = some x → j₁ = j₂)
+    (ho_inj : ∀ j₁ j₂ c₁ c₂ x, cs[j₁]? = some c₁ → cs[j₂]? = some c₂ →
+        bo (0 + j₁) c₁ = some x → bo (0 + j₂) c₂ = some x → j₁ = j₂)
+    (hdisj : ∀ j₁ j₂ c₁ c₂ x, bs j₁ c₁ = some x → bo j₂ c₂ ≠ some x)
+    (hsome : ∀ j c, ign c = false → (bs j c).isSome ∧ (bo j c).isSome) :
+    EnvOK (envOf k bo 0 cs ys ++ envOf k bs 0 cs xs) k ign bs bo 0 cs xs ys := by
+  intro j c x y hc hx hy hig
+  obtain ⟨h1, h2⟩ := hsome (0 + j) c hig
+  obtain ⟨s, hs⟩ := Option.isSome_iff_exists.mp h1
+  obtain ⟨o, ho⟩ := Option.isSome_iff_exists.mp h2
+  refine ⟨s, o, hs, ho, ?_, ?_⟩
+  · rw [look_append]
+    have hnone : Env.look (envOf k bo 0 cs ys) s = none := by
+      apply look_envOf_none
+      intro j' c' _ hb
+      exact hdisj (0 + j) (0 + j') c c' s hs hb
+    rw [hnone]
+    exact look_envOf k bs cs xs 0 hs_inj j c x s hc hx hs
+  · rw [look_append]
+    rw [look_envOf k bo cs ys 0 ho_inj j c y o hc hy ho]
+
+/-- Single-pattern version (Hash, Debug): every non-ignored field's binder resolves to it. -/
+def EnvOK1 {V C : Type} (E : Env V) (k : Nat) (ign : C → Bool) (bs : Nat → C → Option Ident)
+    (i : Nat) (cs : List C) (xs : List V) : Prop :=
+  ∀ j c x, cs[j]? = some c → xs[j]? = some x → ign c = false →
+    ∃ s, bs (i + j) c = some s ∧ E.look s = some (⟨k, i + j⟩, x)
+
+theorem EnvOK1_tail {V C : Type} {E : Env V} {k : Nat} {ign : C → Bool}
+    {bs : Nat → C → Option Ident} {i : Nat} {c : C} {cs : List C} {x : V} {xs : List V}
+    (h : EnvOK1 E k ign bs i (c :: cs) (x :: xs)) : EnvOK1 E k ign bs (i + 1) cs xs := by
+  intro j c' x' hc hx hig
+  have := h (j + 1) c' x' (by simpa using hc) (by simpa using hx) hig
+  rwa [show i + (j + 1) = i + 1 + j by omega] at this
+
+theorem envOK1_of_envOf {V C : Type} (k : Nat) (ign : C → Bool) (bs : Nat → C → Option Ident)
+    (cs : List C) (xs : List V)
+    (hs_inj : ∀ j₁ j₂ c₁ c₂ x, cs[j₁]? = some c₁ → cs[j₂]? = some c₂ →
+        bs (0 + j₁) c₁ = some x → bs (0 + j₂) c₂ = some x → j₁ = j₂)
+    (hsome : ∀ j c, ign c = false → (bs j c).isSome) :
+    EnvOK1 (envOf k bs 0 cs xs) k ign bs 0 cs xs := by
+  intro j c x hc hx hig
+  obtain ⟨s, hs⟩ := Option.isSome_iff_exists.mp (hsome (0 + j) c hig)
+  exact ⟨s, hs, look_envOf k bs cs xs 0 hs_inj j c x s hc hx hs⟩
+
 end Educe
